@@ -202,7 +202,7 @@ fn corrupt(rng: &mut Rng, cfg: &Cfg, m: &mut Value) -> (String, String) {
             *target = json!(arr);
         }
         "ibc_channel_id" => {
-            let c = rng.pick(&["channel-", "channel-x", "channel--1", "channel-1 ", "channel1", "Channel-1", "channel-18446744073709551616", "channel-+5", "channel-0x10", "connection-1", "", "channel-١"]).to_string();
+            let c = rng.pick(&["channel-", "channel-x", "channel--1", "channel-1 ", "channel1", "Channel-1", "channel-18446744073709551616", "channel-+5", "channel-0x10", "connection-1", "", "channel-١", "channel-0/a-5", "channel-1/x-22", "channel-3/channel-4"]).to_string();
             fam = format!("channel:{c}");
             *target = json!(c);
         }
@@ -247,7 +247,16 @@ fn corrupt(rng: &mut Rng, cfg: &Cfg, m: &mut Value) -> (String, String) {
         _ => {
             // prefixes
             let base = target.as_str().unwrap_or("").to_string();
-            let c = match rng.below(6) {
+            let c = match rng.below(8) {
+                // capitals followed by a digit or a symbol
+                6 => format!("{}2", base.to_uppercase()),
+                7 => {
+                    let mut b: Vec<char> = base.chars().collect();
+                    if let Some(x) = b.first_mut() {
+                        *x = x.to_ascii_uppercase();
+                    }
+                    format!("{}-x1", b.into_iter().collect::<String>())
+                }
                 0 => String::new(),
                 1 => base.to_uppercase(),
                 2 => {
@@ -409,6 +418,8 @@ pub fn run(a: &Args, acc: &mut Acc) {
             let mut c = Cfg::random(&mut rng);
             // same chain, other values
             c.prefix = cfg.prefix.clone();
+            // (an empty validator list is a value like any other)
+            c.n_validators = rng.below(4) as usize;
             c
         };
         let (n2, p2, f2, mons2, _) = valid_sections(&mut rng, &cfg2);
@@ -466,7 +477,7 @@ pub fn run(a: &Args, acc: &mut Acc) {
                 }
                 if mask & 1 != 0 && !corrupted {
                     let an = after.get("native_chain_config").cloned().unwrap_or(Value::Null);
-                    if vs(&an, "staker_address") != vs(&n2, "staker_address") || vu64(&an, "unbonding_period") != vu64(&n2, "unbonding_period") || an.get("validators") != n2.get("validators") {
+                    if vs(&an, "staker_address") != vs(&n2, "staker_address") || vs(&an, "reward_collector_address") != vs(&n2, "reward_collector_address") || vu64(&an, "unbonding_period") != vu64(&n2, "unbonding_period") || an.get("validators") != n2.get("validators") {
                         report(acc, "UpdateConfig did not store the supplied native section".into(), case.clone());
                     }
                 }
